@@ -152,7 +152,7 @@ def len_program(cases):
     return {"src": src}, exp, ks
 
 
-SIZE_LABELS = ["sizeof", "sizeof-array-of-3", "sizeof-word", "sizeof-array-of-3-words", "sizeof-underfilled-word", "sizeof-array-of-3-underfilled-words"]
+SIZE_LABELS = ["sizeof", "sizeof-array-of-3", "const-sizeof-word-plus-sizeof", "const-sizeof-plus-sizeof-word", "sizeof-word", "sizeof-array-of-3-words", "sizeof-underfilled-word", "sizeof-array-of-3-underfilled-words"]
 PRELUDE_TYPES = "struct P8\n{\na: u8,\nx: i32,\n}\nword16 W2\n{\na: u8,\nb: u8,\n}\n"
 
 
@@ -160,7 +160,7 @@ def size_programs(cases):
     programs, expected, keys = [], [], []
     for start in range(0, len(cases), PACK):
         chunk = cases[start:start + PACK]
-        decls, body, exp, ks = [PRELUDE_TYPES], [], [], []
+        early, decls, body, exp, ks = [], [PRELUDE_TYPES], [], [], []
         for k, c in enumerate(chunk):
             members = "".join("m%d: %s,\n" % (i, t) for i, t in enumerate(c["ms"]))
             decls.append("struct S%d\n{\n%s}" % (k, members))
@@ -170,6 +170,13 @@ def size_programs(cases):
             # the alignment of word members is undocumented: both layouts are accepted (alternatives joined by "|")
             alts = sorted(set([c["size"], c["size2"]]))
             want = ["|".join(str(x) for x in alts), "|".join(str(3 * x) for x in alts)]
+            # constants that measure TWO declared types (the prelude word W2, 2 bytes, and this structure, which may
+            # itself hold a W2), in both operand orders; declared before every structure for even units, after them
+            # for odd ones: a constant is evaluated at compile time, wherever it stands, to the storage really used
+            (early if k % 2 == 0 else decls).append("const ZA%d: usize = |:W2| + |:S%d|;\nconst ZB%d: usize = |:S%d| + |:W2|;" % (k, k, k, k))
+            body.append('print!(ZA%d, "\\n");' % k)
+            body.append('print!(ZB%d, "\\n");' % k)
+            want += ["|".join(str(2 + x) for x in alts)] * 2
             # words over the same members, when the members are allowed in words.  A word occupies the storage of
             # its members (the typer only demands that they fit into the declared width), so `|:W|` is the same
             # layout size as for the structure, for an exactly declared word and for an under-filled one alike;
@@ -188,7 +195,7 @@ def size_programs(cases):
                     want.append(want[1])
             exp.append(want)
             ks.append("size {" + ", ".join(c["ms"]) + "}")
-        src = "\n".join(decls) + "\nfn main() -> u8\n{\n" + "\n".join(body) + "\nreturn: 0u8\n}\n"
+        src = "\n".join(early + decls) + "\nfn main() -> u8\n{\n" + "\n".join(body) + "\nreturn: 0u8\n}\n"
         programs.append({"src": src})
         expected.append(exp)
         keys.append(ks)
@@ -237,7 +244,8 @@ def compare(rep, kind, programs, results, expected, keys, labels):
             ok = got is not None and len(got) == len(want) and all(g in w.split("|") for g, w in zip(got, want))
             if ok and kind == "size":
                 # whichever alternative the compiler uses, `|:[3]T|` = 3 * `|:T|` (the property's own equation)
-                ok = all(int(got[i + 1]) == 3 * int(got[i]) for i in range(0, len(got) - 1, 2))
+                # (lines 2 and 3 are the two-type constants ZA, ZB)
+                ok = all(int(got[i + 1]) == 3 * int(got[i]) for i in range(0, len(got) - 1, 2) if i != 2) and got[2] == got[3]
             if not ok:
                 which = [labels[i] for i in range(min(len(want), len(got or []))) if got[i] not in want[i].split("|")] if got else ["missing"]
                 rep.violation(kind, "%s :: %s" % (key, "+".join(which) or "count"),
@@ -279,7 +287,7 @@ def run(rep, tier, seed, selftest):
         import io, contextlib
         with contextlib.redirect_stdout(io.StringIO()):
             bad = [[list(x) for x in sexp[0]]]
-            bad[0][0][0] = str(int(bad[0][0][0]) + 1)
+            bad[0][0][0] = str(int(bad[0][0][0].split("|")[0]) + 1000)
             compare(probe, "size", sprogs[:1], sres[:1], bad, skeys[:1], SIZE_LABELS)
         selftests["corrupted_expectation_detected"] = len(probe.violations) == 1
         for f in probe.violations:
